@@ -18,6 +18,16 @@ const WRITERS: &[(&str, &[&str])] = &[
     ("FLUSHDB", &["FLUSHDB"]), ("FLUSHALL", &["FLUSHALL"]),
     ("XADD", &["XADD", "K", "*", "f", "v"]), ("XADD-explicit", &["XADD", "K", "5-5", "f", "v"]), ("XADD-refused", &["XADD", "K", "0-1", "f", "v"]), ("XDEL", &["XDEL", "K", "1-1"]), ("XDEL-missing", &["XDEL", "K", "9-9"]),
     ("XTRIM", &["XTRIM", "K", "MAXLEN", "0"]), ("XTRIM-noop", &["XTRIM", "K", "MAXLEN", "100"]),
+    // forms the first catalogue lacked: the key in a later argument position, several elements at once, SET options,
+    // increments by zero and edits that leave the value as it was (creating the key when it is absent), a stream
+    // created by XGROUP CREATE ... MKSTREAM
+    ("SET-NX", &["SET", "K", "new", "NX"]), ("SET-XX", &["SET", "K", "new", "XX"]), ("SET-PX", &["SET", "K", "new", "PX", "100000"]), ("SET-EX-XX", &["SET", "K", "new", "EX", "100", "XX"]),
+    ("MSET-second", &["MSET", "other", "1", "K", "new"]), ("DEL-second", &["DEL", "other", "K"]), ("DEL-twice", &["DEL", "K", "K"]),
+    ("LPUSH-multi", &["LPUSH", "K", "x", "y", "z"]), ("RPUSH-multi", &["RPUSH", "K", "x", "y"]), ("SADD-multi", &["SADD", "K", "a", "x"]), ("HSET-multi", &["HSET", "K", "f", "1", "g", "2"]), ("ZADD-multi", &["ZADD", "K", "1", "a", "7", "y"]),
+    ("INCRBY0", &["INCRBY", "K", "0"]), ("HINCRBY0", &["HINCRBY", "K", "f", "0"]), ("HINCRBY-newfield", &["HINCRBY", "K", "nf", "3"]), ("ZINCRBY0", &["ZINCRBY", "K", "0", "a"]), ("ZINCRBY-new", &["ZINCRBY", "K", "2", "nm"]),
+    ("APPEND-empty", &["APPEND", "K", ""]), ("SETRANGE-empty", &["SETRANGE", "K", "0", ""]), ("SETRANGE-pad", &["SETRANGE", "K", "6", "z"]), ("LREM-missing", &["LREM", "K", "0", "zzz"]), ("LREM-neg", &["LREM", "K", "-1", "b"]), ("LSET-last", &["LSET", "K", "-1", "q"]),
+    ("LTRIM-keep", &["LTRIM", "K", "0", "-1"]), ("SPOP0", &["SPOP", "K", "0"]), ("ZPOPMIN-all", &["ZPOPMIN", "K", "9"]), ("EXPIRE-neg", &["EXPIRE", "K", "-5"]), ("PERSIST-twice", &["PERSIST", "K"]),
+    ("XGROUP-MKSTREAM", &["XGROUP", "CREATE", "K", "g", "$", "MKSTREAM"]),
 ];
 const STATES: &[&str] = &["absent", "string", "list", "set", "hash", "zset", "string+ttl", "list+ttl", "stream"];
 const ROUTES: &[&str] = &["other-direct", "self-before-multi", "other-in-exec", "eval", "mirror-same-shard", "mirror-other-db", "unwatch-between", "exec-between", "discard-between", "same-turn"];
@@ -46,7 +56,9 @@ fn scenario(sc: &mut Scenario, n: u64, wi: usize, si: usize, ri: usize, r: &mut 
     let k2 = format!("j{}", n);
     let probe = format!("probe{}", n);
     let (_, tmpl) = WRITERS[wi];
-    let state = STATES[si];
+    // XGROUP CREATE on a stream that exists adds a group, which Redis does not count as a change of the key: only the
+    // creation of the stream (absent key) and the refusals (other types) are judged
+    let state = if WRITERS[wi].0 == "XGROUP-MKSTREAM" && STATES[si] == "stream" { "absent" } else { STATES[si] };
     let route = ROUTES[ri];
     let s = |sc: &mut Scenario, c: usize, a: Vec<B>| { sc.steps.push(Step::Send { c, a, split: vec![] }); sc.steps.push(Step::Turns { n: 1 }); };
     sc.steps.push(Step::Ctl { name: "scenario".into(), n: n as i64, a: vec![b(WRITERS[wi].0), b(state), b(route)] });
@@ -126,7 +138,8 @@ pub fn gen(seed: u64, idx: u64, _tier: Tier) -> Scenario {
                 for j in 0..r.range(3, 8) as u64 {
                     let c = r.below(3) as usize;
                     let k = *r.pick(&keys);
-                    let (_, tmpl) = *r.pick(WRITERS);
+                    // (all but the last template: a group added to a stream that exists is not judged, see `scenario`)
+                    let (_, tmpl) = *r.pick(&WRITERS[..WRITERS.len() - 1]);
                     let a = match r.below(6) { 0 => vec![b("WATCH"), b(k)], 1 => vec![b("UNWATCH")], 2 => subst(tmpl, k, "w9"), 3 => vec![b("MULTI")], 4 => vec![b("EXEC")], _ => subst(tmpl, *r.pick(&keys), "w9") };
                     sc.steps.push(Step::Send { c, a, split: vec![] });
                     if r.chance(2, 3) { sc.steps.push(Step::Turns { n: 1 }); }
@@ -165,7 +178,7 @@ fn rounds() -> u64 { ((WRITERS.len() * STATES.len() * ROUTES.len()) as u64 + 5) 
 pub static DEF: CheckDef = CheckDef {
     id: "C08", level: "exploration", gen, exec,
     nontrivial: |o| o.counters.get("exec_with_watch").copied().unwrap_or(0) >= 1,
-    rule: "run indices 0..N walk the complete catalogue of 50 writer templates (every mutating string/list/set/hash/zset/generic command incl. variants that empty the value, hit an existing member, or leave the value unchanged) x 8 states of the watched key (absent, each of five types, with TTL) x 10 routes (another connection directly; the watching connection itself before MULTI; another connection inside its own EXEC; redis.call from a script; the same command on a different key of the same storage shard (by FNV-1a) and on the same key name in another database, where EXEC must run; UNWATCH / EXEC / DISCARD between, where the watch must be forgotten; writer and EXEC delivered before the same loop turn), 6 scenarios `A: WATCH k; route(M,k); A: MULTI; SET probe; EXEC` per run on fresh key names; later runs: expiry of the watched key by deadline at offsets around it (lazy path and sweeper path), a served blocking pop on the watched list, random multi-watcher histories. Oracle from the sequential model fed in the server's actual execution order: value/TTL/existence of a watched key differs from its snapshot at WATCH => EXEC must be nil and the probe unset; no command named the key in the window => EXEC must run; named but unchanged => either; non-trivial = at least one EXEC with a non-empty watch set judged; exhaustive = true when all catalogue rounds ran",
+    rule: "run indices 0..N walk the complete catalogue of 86 writer templates (every mutating string/list/set/hash/zset/generic command incl. variants that empty the value, hit an existing member, or leave the value unchanged) x 9 states of the watched key (absent, each of five types, two with TTL, stream) x 10 routes (another connection directly; the watching connection itself before MULTI; another connection inside its own EXEC; redis.call from a script; the same command on a different key of the same storage shard (by FNV-1a) and on the same key name in another database, where EXEC must run; UNWATCH / EXEC / DISCARD between, where the watch must be forgotten; writer and EXEC delivered before the same loop turn), 6 scenarios `A: WATCH k; route(M,k); A: MULTI; SET probe; EXEC` per run on fresh key names; later runs: expiry of the watched key by deadline at offsets around it (lazy path and sweeper path), a served blocking pop on the watched list, random multi-watcher histories. Oracle from the sequential model fed in the server's actual execution order: value/TTL/existence of a watched key differs from its snapshot at WATCH => EXEC must be nil and the probe unset; no command named the key in the window => EXEC must run; named but unchanged => either; non-trivial = at least one EXEC with a non-empty watch set judged; exhaustive = true when all catalogue rounds ran",
     quick_budget_s: 45.0, thorough_budget_s: 900.0, quick_max_runs: 1_000_000, thorough_max_runs: 100_000_000, exhaustive: false, exhaustive_after: |_| rounds(),
     real: REAL_WHOLE_SERVER, stub: STUB_WHOLE_SERVER, assumptions: ASSUME_COMMON,
 };
